@@ -7,10 +7,10 @@ import itertools
 
 from .. import sym, tables
 from ..norm import n, P, C, call, binop, idx, table
-from . import common
+from . import common, simd
 
 ID = "C01"
-CONFIGS = {"quick": ["K0", "K1"], "thorough": ["K0", "K1", "K7", "K13", "K14a", "K14b", "K14c"]}
+CONFIGS = {"quick": ["K0", "K1"], "thorough": ["K0", "K1", "K7", "K13", "K14a", "K14b", "K14c", "K19", "K20", "K21"]}
 META = {
     "explanation": (
         "Static analysis of the type-checked program (rustc MIR + constant evaluator) in several feature "
@@ -45,6 +45,7 @@ def run(ctx, FS):
         checksum_rec(ctx, F)
         finalize(ctx, F)
         dibit(ctx, F)
+        simd_dibit(ctx, F)
     ctx.floor("R-01.1", 5 * len(FS), "table/constant instances")
 
 
@@ -282,6 +283,20 @@ def finalize(ctx, F):
 
 
 # ------------------------------------------------------------------ R-01.6
+
+
+def simd_dibit(ctx, F):
+    """The SIMD aggregation backends compiled in this configuration produce the same dibit as get_quartile."""
+    if not any(F.fn(path) is not None for path, _ in simd.AGG.values()):
+        return
+    r = "R-01.7"
+    ctx.rule(r, "SIMD bucket aggregation: dibit = 2*[v>q2] + ([v>q1]^[v>q2]^[v>q3]) with unsigned compares, equal to #{k : v > q_k} whenever "
+                "q1<=q2<=q3 (all monotone indicator triples enumerated); bytes written in the naive aggregator's order", "N")
+    # the formula equals the count on every indicator triple that q1<=q2<=q3 allows: (0,0,0) (1,0,0) (1,1,0) (1,1,1)
+    ok = all(2 * g2 + (g1 ^ g2 ^ g3) == g1 + g2 + g3 for (g1, g2, g3) in ((0, 0, 0), (1, 0, 0), (1, 1, 0), (1, 1, 1)))
+    ctx.instance(r)
+    ctx.ob(r, ("dibit-formula", "equals-count-on-monotone-triples"), ok, "formula and count differ", cfg=F.key, trivial=True)
+    simd.agg_kernels(ctx, r, F)
 
 
 def dibit(ctx, F):
